@@ -663,7 +663,9 @@ attrsLoop:
 					if htmlAttr.Key == "href" {
 						hrefFound = true
 
-						u, err := url.Parse(htmlAttr.Val)
+						// a browser ignores white space around the value, so that
+						// " //host/path" is a link to another host as well
+						u, err := url.Parse(strings.TrimSpace(htmlAttr.Val))
 						if err != nil {
 							// a URL we cannot take apart may still lead a browser
 							// to another host: harden it like a qualified link
